@@ -112,6 +112,8 @@ func (r *vcReplayer) innerName() string {
 		return "epidemic"
 	case "mule_spray":
 		return "spray"
+	case "mule_binary_spray":
+		return "binary_spray"
 	}
 	return r.cfg.Algo
 }
@@ -405,7 +407,7 @@ func (r *vcReplayer) checkFaithful(sd vcSent, exp *vcSendExp) bool {
 				return bad("bundle-age", fmt.Sprintf("bundle age was %d ms on arrival, %d ms on transmission, but the bundle had stayed between %d and %d ms", oa, ta, minRes, maxRes))
 			}
 		case bpv7.ExtBlockTypeBinarySprayBlock:
-			if r.cfg.Algo != "binary_spray" {
+			if r.innerName() != "binary_spray" {
 				if oerr != nil || ser(*ocb) != ser(cb) {
 					return bad("block-changed", "binary spray block changed by an algorithm that does not own it")
 				}
@@ -727,7 +729,7 @@ func (r *vcReplayer) run() string {
 					adm = true
 				}
 				// sensor-mule around spray: the wrapped algorithm may have picked sensors only, which leaves no transmission at all
-				if r.cfg.Algo == "mule_spray" && len(expT[b]) == 0 && len(ch) > 0 && vcSet(ch) == vcSet(obsT[b]) {
+				if (r.cfg.Algo == "mule_spray" || r.cfg.Algo == "mule_binary_spray") && len(expT[b]) == 0 && len(ch) > 0 && vcSet(ch) == vcSet(obsT[b]) {
 					adm = true
 				}
 			}
@@ -788,7 +790,7 @@ func (r *vcReplayer) run() string {
 					}
 				}
 			}
-			if r.cfg.Algo == "binary_spray" && !e.Direct {
+			if r.innerName() == "binary_spray" && !e.Direct {
 				cb, err := sd.Bundle.ExtensionBlock(bpv7.ExtBlockTypeBinarySprayBlock)
 				got := -1
 				if err == nil {
